@@ -88,9 +88,14 @@ def build(rec, pol=None):
     if m == "param_zeeman_triplet":
         return ParametrisedZeemanTriplet(line, LAM0, sp, p, ad, (ALPHA, BETA, GAMMA), polarisation=pol), None
     if m == "zeeman_multiplet":
-        zs = ZeemanStructure([(Constant1D(LAM0 + ZM["p1"]), Constant1D(1.0)), (Constant1D(LAM0 + ZM["p2"]), Constant1D(1.0))],
-                             [(Constant1D(LAM0 + ZM["sp1"]), Constant1D(2.0)), (Constant1D(LAM0 + ZM["sp2"]), Constant1D(1.0))],
-                             [(Constant1D(LAM0 + ZM["sm1"]), Constant1D(1.0)), (Constant1D(LAM0 + ZM["sm2"]), Constant1D(3.0))])
+        # positions and ratios are functions of |B|: they answer with the spec's numbers only when asked at the field magnitude
+        bm = bvec(rec["cs"], rec["bzero"], rec.get("view", 1)).length
+
+        def fb(v):
+            return lambda x: v if abs(x - bm) <= 1e-9 * max(bm, 1e-300) else 1.9 * v + 0.3
+        zs = ZeemanStructure([(fb(LAM0 + ZM["p1"]), fb(1.0)), (fb(LAM0 + ZM["p2"]), fb(1.0))],
+                             [(fb(LAM0 + ZM["sp1"]), fb(2.0)), (fb(LAM0 + ZM["sp2"]), fb(1.0))],
+                             [(fb(LAM0 + ZM["sm1"]), fb(1.0)), (fb(LAM0 + ZM["sm2"]), fb(3.0))])
         return ZeemanMultiplet(line, LAM0, sp, p, ad, zs, polarisation=pol), None
     if m == "stark":
         return StarkBroadenedLine(line, LAM0, sp, p, ad, stark_model_coefficients=(3.71e-18, 0.7665, 0.064), polarisation=pol), None
@@ -99,7 +104,11 @@ def build(rec, pol=None):
     beam.energy = BEAM_E
     beam.temperature = max(float(rec["tsp"]), 0.0)
     beam.element = deuterium
-    return BeamEmissionMultiplet(line, LAM0, beam, ad, 0.5, 0.5, 0.5, 0.25), beam
+    # the ratio functions answer with the spec's ratios only at the documented arguments (n_e [, beam energy]); anywhere else
+    # they return other numbers, so that an argument mix-up changes the component shares
+    def at(v, *want):
+        return lambda *a: v if len(a) == len(want) and all(abs(x - w) <= 1e-9 * max(abs(w), 1e-300) for x, w in zip(a, want)) else 3.7 * v + 0.1
+    return BeamEmissionMultiplet(line, LAM0, beam, ad, at(0.5, ne, BEAM_E), at(0.5, ne), at(0.5, ne), at(0.25, ne)), beam
 
 
 def gauss_bin(centre, sigma, lo, hi):
